@@ -14,7 +14,8 @@ pub const POISON: u8 = 0xDD;
 /// layout, so `dealloc` can recompute it without any bookkeeping.
 #[inline]
 fn pad_for(layout: Layout) -> usize {
-    layout.align().max(32)
+    // Miri tracks provenance per allocation: no red zones there (Miri checks bounds itself)
+    if cfg!(miri) { 0 } else { layout.align().max(32) }
 }
 
 #[derive(Clone, Copy, Debug, PartialEq, Eq)]
@@ -222,7 +223,14 @@ unsafe impl GlobalAlloc for TrackAlloc {
                     }
                     s.n_free += 1;
                     let raw_layout = Layout::from_size_align(b.size + 2 * pad, b.align).unwrap();
-                    if b.watched {
+                    if b.watched && cfg!(miri) {
+                        // under Miri the block is really freed, so that Miri itself reports any
+                        // later access; the event is recorded all the same
+                        s.blocks.get_mut(&addr).unwrap().released = true;
+                        let ctx = CTX.with(|c| c.get());
+                        let _ = EVENTS.try_with(|e| e.borrow_mut().push(Ev::Free { block: addr, watched: true, ctx }));
+                        unsafe { System.dealloc(raw, raw_layout) };
+                    } else if b.watched {
                         // quarantine: keep the memory mapped, poison only the value extent
                         s.blocks.get_mut(&addr).unwrap().released = true;
                         unsafe {
@@ -301,7 +309,7 @@ pub fn end_case() -> CaseEnd {
             }
             if !b.released && b.watched {
                 // check red zones of outstanding blocks
-                let pad = b.align.max(32);
+                let pad = if cfg!(miri) { 0 } else { b.align.max(32) };
                 let ptr = *addr as *const u8;
                 unsafe {
                     let raw = ptr.sub(pad);
